@@ -129,6 +129,7 @@ type c20Node struct {
 	cfg      c20Config
 	pools    []*fx.Pool
 	client   *fx.Client
+	wclient  *c20WriterClient
 	v0, vg   *fx.Version
 	cas      *fx.MemCAS
 	store    *fx.Store
@@ -215,7 +216,8 @@ func newC20Node(cfg c20Config, pools []*fx.Pool) *c20Node {
 	} else {
 		n.client = fx.NewClient(n.v0)
 	}
-	w, err := batch.New(c20NS, &c16Ctx{pc: n.client, anchor: n.ledger, queue: n.queue}, batch.WithBatchTimeout(24*time.Hour), batch.WithMonitorInterval(24*time.Hour))
+	n.wclient = &c20WriterClient{Client: n.client}
+	w, err := batch.New(c20NS, &c16Ctx{pc: n.wclient, anchor: n.ledger, queue: n.queue}, batch.WithBatchTimeout(24*time.Hour), batch.WithMonitorInterval(24*time.Hour))
 	if err != nil {
 		panic(err)
 	}
@@ -410,8 +412,22 @@ func (m *c20Model) key() string {
 
 // ---- events
 type c20Event struct {
-	Kind string // submit | tickM | tickT | observe | advance
+	Kind string // submit | tickM | tickT | tickT!get | observe | advance
 	D    int
+}
+
+// c20WriterClient is the protocol client handed to the batch writer: its next version lookup can be made to fail once.
+type c20WriterClient struct {
+	*fx.Client
+	failNext bool
+}
+
+func (c *c20WriterClient) Get(t uint64) (protocol.Version, error) {
+	if c.failNext {
+		c.failNext = false
+		return nil, fmt.Errorf("injected protocol-version lookup failure")
+	}
+	return c.Client.Get(t)
 }
 
 // c20BadRequests are submissions that must be refused: their document is not a valid original document, or the request is
@@ -508,6 +524,14 @@ func c20Replay(cfg c20Config, pools []*fx.Pool, events []c20Event) (*c20Model, s
 			m.tick(false)
 		case "tickT":
 			n.writer.VerifStep(true)
+			m.tick(true)
+		case "tickT!get":
+			// a timeout tick during which the writer's protocol-version lookup for the first batch fails: the batch stays queued
+			// under its own version and is anchored by a later tick
+			n.wclient.failNext = true
+			n.writer.VerifStep(true)
+			n.wclient.failNext = false
+			m.q.failGet = 1
 			m.tick(true)
 		case "observe":
 			n.ledger.mu.Lock()
@@ -618,7 +642,7 @@ func c20Visible(m *c20Model, d int) []string {
 
 func c20(r *hx.Run) {
 	fx.Quiet()
-	r.Rule = "breadth-first search over event sequences {submit next scripted request of DID d, monitor tick, timeout tick, observe (deliver all pending ledger transactions), submit invalid requests (document with id / context, non-applying delta, malformed: must be refused without a trace), advance (switch to the second protocol version)} on a node assembled only from the library's real parts (REST update/resolve handlers -> DocumentHandler with default decorator -> Writer/cutter/MemQueue -> OperationHandler -> CAS -> harness ledger -> Observer -> TxnProcessor/OperationProvider -> store -> processor -> didtransformer), de-duplicated on the reference state; every transition replays the sequence on a fresh node in lock-step with the reference (acceptance rule, queue/batch model, ledger, ref/sidetree resolution, independent projection); configurations vary scripts (C U U / C U R U / C D U / C R D / C R(out of window) U / C D(out of window) D / C R U(next commitment = the recover's revealed one) / C U(alias) / C U(json-patch); the two protocol versions each enable a patch action the other lacks), unpublished-operation store and one or two protocol versions. Non-trivial: states in which at least one DID resolves with an operation applied after its create."
+	r.Rule = "breadth-first search over event sequences {submit next scripted request of DID d, monitor tick, timeout tick, observe (deliver all pending ledger transactions), submit invalid requests (document with id / context, non-applying delta, malformed: must be refused without a trace), advance (switch to the second protocol version), timeout tick with the writer's protocol-version lookup failing (two-version configurations without unpublished store)} on a node assembled only from the library's real parts (REST update/resolve handlers -> DocumentHandler with default decorator -> Writer/cutter/MemQueue -> OperationHandler -> CAS -> harness ledger -> Observer -> TxnProcessor/OperationProvider -> store -> processor -> didtransformer), de-duplicated on the reference state; every transition replays the sequence on a fresh node in lock-step with the reference (acceptance rule, queue/batch model, ledger, ref/sidetree resolution, independent projection); configurations vary scripts (C U U / C U R U / C D U / C R D / C R(out of window) U / C D(out of window) D / C R U(next commitment = the recover's revealed one) / C U(alias) / C U(json-patch); the two protocol versions each enable a patch action the other lacks), unpublished-operation store and one or two protocol versions. Non-trivial: states in which at least one DID resolves with an operation applied after its create."
 	configs := []c20Config{
 		{"AB|nounpub|1ver", [][]string{{"C", "U01", "U12"}, {"C", "U01", "R01", "V01"}}, false, false, 2},
 		{"CD|unpub|1ver", [][]string{{"C", "D0", "U01"}, {"C", "R01", "D1"}}, true, false, 2},
@@ -677,6 +701,9 @@ func c20(r *hx.Run) {
 		evs := []c20Event{{Kind: "submit", D: 0}, {Kind: "submit", D: 1}, {Kind: "tickM"}, {Kind: "tickT"}, {Kind: "observe"}, {Kind: "submitBad"}}
 		if cfg.TwoVer {
 			evs = append(evs, c20Event{Kind: "advance"})
+			if !cfg.Unpub {
+				evs = append(evs, c20Event{Kind: "tickT!get"})
+			}
 		}
 		type node struct{ events []c20Event }
 		seen := map[string]bool{}
